@@ -108,6 +108,11 @@ func webSocketParse(c *casket.Controller) ([]Config, error) {
 			if err != nil {
 				return nil, err
 			}
+		} else {
+			// The block followed the first argument directly,
+			// so that argument was the command
+			path = "/"
+			command = val
 		}
 
 		// Split command into the actual command and its arguments
